@@ -60,7 +60,9 @@ type desc struct {
 	Plan      string    `json:"plan"`
 	Burst     bool      `json:"burst,omitempty"`
 	Overflow  bool      `json:"three_back_to_back,omitempty"`
-	Long      int       `json:"long_prefix,omitempty"` // number of timeout pre-responses of a long-history script
+	CbDelayMs int64     `json:"callback_blocks_ms,omitempty"` // every extension callback sleeps this long
+	Race      bool      `json:"race,omitempty"`               // timer and messages are meant to be ready together
+	Long      int       `json:"long_prefix,omitempty"`        // number of timeout pre-responses of a long-history script
 }
 
 // ---- payload catalogue ----
@@ -851,6 +853,9 @@ func runOne(e *env, d *desc) (Case, []ImplViolation) {
 			cbmu.Lock()
 			cbs = append(cbs, cbRec{i, dd})
 			cbmu.Unlock()
+			if d.CbDelayMs > 0 {
+				time.Sleep(dur(d.CbDelayMs))
+			}
 		}
 	}
 	var doneCh chan struct{}
@@ -1022,8 +1027,8 @@ func runOne(e *env, d *desc) (Case, []ImplViolation) {
 		dd.Arr = arr
 	}
 	cs.Desc = dd
-	cs.Term = fmt.Sprintf("CC %s %s %s %s %s %s %s %s %s %s %s %s %s %s",
-		Nat(d.Ncb), failTerm(d, marshalErr, c.lastErr), Z(int(dur(d.TimeoutMs))), List(arrT), List(parseT),
+	cs.Term = fmt.Sprintf("CC %s %s %s %s %s %s %s %s %s %s %s %s %s %s %s %s",
+		Nat(d.Ncb), failTerm(d, marshalErr, c.lastErr), Z(int(dur(d.TimeoutMs))), Z(int(dur(d.CbDelayMs))), Bool(d.Race), List(arrT), List(parseT),
 		B(summary(got.r, false)), B(summary(got.r, true)), List(cbT), Bool(subscribed), Bool(published), Bool(released), N(live), Z(int(dur(elapsedMs))), Bool(pubok))
 	kb, _ := json.Marshal(struct {
 		M, F, R string
@@ -1058,6 +1063,14 @@ func runOne(e *env, d *desc) (Case, []ImplViolation) {
 	}
 	if d.Long > 0 {
 		cs.Tags = append(cs.Tags, fmt.Sprintf("long:%d", d.Long))
+	}
+	if d.Race {
+		cs.Tags = append(cs.Tags, "race")
+		if summary(got.r, false) == summary(resprot.Response{Error: res.ErrTimeout}, false) {
+			raceCount("timer-chosen")
+		} else {
+			raceCount("message-chosen")
+		}
 	}
 	return cs, impl
 }
@@ -1197,6 +1210,52 @@ func genService(r *Rng, id int, dist map[string]int) *desc {
 		dist["service:plan-late"]++
 	}
 	return d
+}
+
+// ---- race scripts: the deadline expires while messages sit unprocessed in the inbox (slow
+// extension callbacks), or a message arrives at the deadline.  select may go either way, so each
+// script is repeated; Run_C19 accepts exactly the results Client/Model.v wait_nd allows. ----
+
+var raceMu sync.Mutex
+var raceStat = map[string]int{}
+
+func raceCount(k string) {
+	raceMu.Lock()
+	raceStat[k]++
+	raceMu.Unlock()
+}
+
+func raceScripts(r *Rng, rounds int, dist map[string]int) []*desc {
+	var out []*desc
+	mk := func(name string, ncb int, cbMs, T int64, arr ...arrival) {
+		for i := range arr {
+			arr[i].Text = fmt.Sprintf("%q", arr[i].Payload)
+		}
+		out = append(out, &desc{Mode: "scripted", Req: "nil", Ncb: ncb, CbDelayMs: cbMs, Race: true, TimeoutMs: T, Plan: "race:" + name, Arr: arr})
+		dist["race:"+name]++
+	}
+	A := func(at int64, p string) arrival { return arrival{AtMs: at, Payload: []byte(p)} }
+	for k := 0; k < rounds; k++ {
+		res1 := fmt.Sprintf(`{"result":{"race":%d}}`, k)
+		// a 40 ms announcement whose callback(s) block 200 ms in all: the new deadline (80) passes and
+		// the following messages queue up; at 240 the timer and the queue are both ready
+		mk("slow-cb/queued-pre", 1, 200, 200, A(40, `timeout:"40"`), A(120, `timeout:"360"`), A(160, res1))
+		mk("slow-cb/queued-bad-pre", 1, 200, 200, A(40, `timeout:"40"`), A(120, `timeout:"abc"`), A(160, res1))
+		mk("slow-cb/queued-response", 1, 200, 200, A(40, `timeout:"40"`), A(120, res1), A(160, `timeout:"360"`))
+		mk("slow-cb/two-callbacks", 2, 100, 200, A(40, `timeout:"0"`), A(80, `hello`), A(120, `timeout:"400"`), A(160, res1))
+		mk("slow-cb/queued-pre-only", 1, 200, 200, A(40, `timeout:"40"`), A(120, `timeout:"360"`))
+	}
+	deltas := []int64{0, 2, -2, 5, -5}
+	for k := 0; k < (rounds+3)/4; k++ {
+		for _, dl := range deltas {
+			res1 := fmt.Sprintf(`{"result":{"tie":%d}}`, k)
+			// a message arriving at the deadline (+- a few ms)
+			mk("at-deadline/pre", 1, 0, 200, A(200+dl, `timeout:"360"`), A(360, res1))
+			mk("at-deadline/response", 1, 0, 200, A(200+dl, res1))
+			mk("at-extended-deadline/pre", 1, 0, 200, A(40, `timeout:"160"`), A(200+dl, `timeout:"abc"`), A(200+dl, `timeout:"360"`), A(400, res1))
+		}
+	}
+	return out
 }
 
 // ---- long histories on the real-NATS legs: behaviour must not change after N messages ----
@@ -1369,6 +1428,17 @@ func main() {
 			id++
 			ds = append(ds, genScripted(r, id, "scripted", dist))
 		}
+		{
+			rounds := 30
+			if o.Tier == "thorough" {
+				rounds = 120
+			}
+			for _, d := range raceScripts(r, rounds, dist) {
+				id++
+				d.ID = id
+				ds = append(ds, d)
+			}
+		}
 		for i := 0; i < nFail; i++ {
 			id++
 			ds = append(ds, genFailing(r, id, i, dist))
@@ -1459,6 +1529,8 @@ func main() {
 	probeMu.Lock()
 	extra["max_scheduler_overshoot_ms"] = int64(probeMax / time.Millisecond)
 	extra["scripts_rerun_because_of_jitter"] = reruns
+	extra["race_scripts_timer_chosen"] = raceStat["timer-chosen"]
+	extra["race_scripts_message_chosen"] = raceStat["message-chosen"]
 	probeMu.Unlock()
 	e.close()
 	nontriv := 0
@@ -1469,6 +1541,6 @@ func main() {
 	}
 	dist["nontrivial"] = nontriv
 	Emit(o, "C19", "From GoRes Require Import Run.Run_C19.", "ccase",
-		"SendRequest against a scripted res.Conn over an embedded nats-server: 0-6 arrivals on a 40 ms grid mixing valid timeout pre-responses (incl. escapes, signs, int64 wrap-around, several tags), pre-responses without effect, result/resource/error responses (also padded with leading/trailing JSON whitespace: every whitespace byte and combinations, directly and after a pre-response) and garbage; failing marshal/subscribe/publish, each with every kind of error value (plain, wrapped, nats sentinel, *res.Error with its own code incl. system.timeout, with Data, nil *res.Error, wrapper around a *res.Error; marshal through a failing MarshalJSON); plus arrivals sent through the server and a real res.Service playing handler scripts (many more in thorough), including long histories on both real-NATS legs: 0..100 (thorough ..300) timeout pre-responses 4 ms apart before the response, around every power of two and the inbox capacity 32, and back-to-back bursts up to that capacity; every timer-vs-message decision >= 120 ms from a tie; non-trivial = a failing step or at least one pre-response in the script; distinct by script",
+		"SendRequest against a scripted res.Conn over an embedded nats-server: 0-6 arrivals on a 40 ms grid mixing valid timeout pre-responses (incl. escapes, signs, int64 wrap-around, several tags), pre-responses without effect, result/resource/error responses (also padded with leading/trailing JSON whitespace: every whitespace byte and combinations, directly and after a pre-response) and garbage; failing marshal/subscribe/publish, each with every kind of error value (plain, wrapped, nats sentinel, *res.Error with its own code incl. system.timeout, with Data, nil *res.Error, wrapper around a *res.Error; marshal through a failing MarshalJSON); plus arrivals sent through the server and a real res.Service playing handler scripts (many more in thorough), including long histories on both real-NATS legs: 0..100 (thorough ..300) timeout pre-responses 4 ms apart before the response, around every power of two and the inbox capacity 32, and back-to-back bursts up to that capacity; every timer-vs-message decision >= 120 ms from a tie, except in the race scripts (slow extension callbacks during which the deadline expires and messages queue up; arrivals at the deadline +-5 ms), which are repeated 30x (thorough 120x) and compared with the set of results the model allows; non-trivial = a failing step or at least one pre-response in the script; distinct by script",
 		cases, dist, extra, impl, 100)
 }
